@@ -56,6 +56,21 @@ def my_stdbase(a, b, c, al, be, ga):
     return [[ax, ay, a * cb], [0.0, b * sa, b * ca], [0.0, 0.0, c]]
 
 
+def _other_angle(lat, which, first):
+    """a different value of one cell angle for which the cell (other two angles unchanged) is still valid"""
+    cur = [lat.alpha, lat.beta, lat.gamma]
+    for g in (first, 97.0, 65.0, 113.0, 50.0, 130.0, 35.0, 145.0, 81.0):
+        tri = list(cur)
+        tri[which] = g
+        if abs(g - cur[which]) > 1.0 and cell_ok(*tri):
+            return g
+    return cur[which] + 0.5
+
+
+def _other_gamma(lat):
+    return _other_angle(lat, 2, 81.0)
+
+
 def matmul(A, B):
     return [[sum(A[i][k] * B[k][j] for k in range(3)) for j in range(3)] for i in range(3)]
 
@@ -75,7 +90,7 @@ ELEMENTS = ["C", "O", "Ni", "Cd", "Se", "Na", "Cl", "Ti"]
 
 
 def gen_cell(rng, kind=None):
-    kind = kind or rng.choice(["cubic", "hex", "ortho", "mono", "tric", "tric", "rhomb"])
+    kind = kind or rng.choice(["cubic", "hex", "ortho", "mono", "tric", "tric", "rhomb", "special"])
     a, b, c = (round(rng.uniform(2.0, 9.0), 3) for _ in range(3))
     if kind == "cubic":
         cell = [a, a, a, 90.0, 90.0, 90.0]
@@ -88,6 +103,13 @@ def gen_cell(rng, kind=None):
     elif kind == "rhomb":
         t = round(rng.uniform(60, 105), 2)
         cell = [a, a, a, t, t, t]
+    elif kind == "special":
+        # angles whose sine / cosine come from the exact table of lattice.cosd (30, 60, 120, 150 ...) or are otherwise special
+        while True:
+            ang = [float(rng.choice([30, 45, 60, 90, 90, 120, 135, 150])) for _ in range(3)]
+            if cell_ok(*ang) and ang != [90.0, 90.0, 90.0]:
+                break
+        cell = [a, b, c] + ang
     else:
         while True:
             ang = [round(rng.uniform(62, 118), 2) for _ in range(3)]
@@ -108,8 +130,21 @@ def gen_atom(rng, idx, in_cell=False):
         xyz = [rng.random() for _ in range(3)]
     else:
         xyz = [rng.uniform(-1.5, 2.5) for _ in range(3)]
+    dt = rng.random()
+    xyz_dtype = None
+    if dt < 0.04:
+        # coordinates stored by the caller as an integer array (atoms on lattice points)
+        xyz_dtype = "int"
+        xyz = [float(rng.choice([0, 0, 1, -1, 2])) for _ in range(3)]
+    elif dt < 0.08:
+        import numpy as _np
+
+        xyz_dtype = "float32"
+        xyz = [float(_np.float32(v)) for v in xyz]
     at = {"element": rng.choice(ELEMENTS), "xyz": xyz, "label": "%s%d" % (rng.choice("ABX"), idx),
           "occupancy": rng.choice([1.0, 0.5, round(rng.random(), 3)]), "vid": idx}
+    if xyz_dtype:
+        at["xyz_dtype"] = xyz_dtype
     u = rng.random()
     if u < 0.35:
         at["Uiso"] = round(rng.uniform(0.001, 0.05), 5)
@@ -147,6 +182,8 @@ def build(spec):
         a = Atom(at["element"], at["xyz"], label=at["label"], occupancy=at["occupancy"])
         S.append(a, copy=False)
         a = S[-1]
+        if at.get("xyz_dtype"):
+            a.xyz = numpy.array(at["xyz"], dtype={"int": int, "float32": numpy.float32}[at["xyz_dtype"]])
         if "U" in at:
             a.U = numpy.array(at["U"], dtype=float)
         elif "Uiso" in at:
@@ -400,7 +437,7 @@ def oracle(spec, mno, want_result=False, form="tuple"):
         if len(T):
             T[0].xyz = [9.0, 9.0, 9.0]
             T.pop(0)
-        T.lattice.setLatPar(a=1.0, alpha=77.0, baserot=[[0, 1, 0], [0, 0, 1], [1, 0, 0]])
+        T.lattice.setLatPar(a=1.0, alpha=_other_angle(T.lattice, 0, 77.0), baserot=[[0, 1, 0], [0, 0, 1], [1, 0, 0]])
         T.title = "changed"
         pf = getattr(T, "pdffit", None)
         if isinstance(pf, dict):
@@ -430,7 +467,7 @@ def oracle(spec, mno, want_result=False, form="tuple"):
                     v[0] = -7
                 else:
                     pf[k] = "edited"
-        S2.lattice.setLatPar(b=2.0, gamma=81.0)
+        S2.lattice.setLatPar(b=2.0, gamma=_other_gamma(S2.lattice))
         if len(S2):
             S2.pop(0)
         if snapshot(T2) != t2:
@@ -507,6 +544,8 @@ def compare_with_model(spec, mno, mout, T):
 def run(ck):
     common.use_repo()
     ok, info = ck.lean_obligations("DS.Props.C15")
+    # the cell-scaling theorems speak about the Lattice model (setLatPar on the copied lattice): tie it to lattice.py
+    tie_ok, tie_info = ck.source_tie("DS.Props.SrcLattice")
     try:
         import diffpy.structure.expansion  # noqa: F401
         from diffpy.structure import PDFFitStructure  # noqa: F401
@@ -531,7 +570,7 @@ def run(ck):
         for r_ in range(reps):
             cases.append((gs(), list(t), "valid", "tuple" if r_ == 0 else rng.choice(FORMS)))
     # strata by cell kind with a fixed awkward triple
-    for kind in ["cubic", "hex", "ortho", "mono", "tric", "rhomb"]:
+    for kind in ["cubic", "hex", "ortho", "mono", "tric", "rhomb", "special"]:
         for t in ([2, 1, 3], [1, 1, 2], [3, 2, 1]):
             cases.append((gs(natoms=rng.choice([1, 2, 4]), kind=kind), t, "valid", rng.choice(FORMS)))
     # PDFFitStructure / structures carrying pdffit metadata (nested lists), incl. the (1,1,1) copy path
@@ -679,6 +718,7 @@ def run(ck):
         "object identity is modelled by allocation order on a heap of atom objects (DS.Expand.supercellH), validated against CPython by the identity oracle",
     ]
     ck.coverage["trusted_base"] += ["harness/c15.py oracle (plain numpy geometry, textbook triclinic base)", "compiled Lean model driver (DS.Expand.expandHandle)"]
+    ck.tie_verdict(tie_ok, tie_info, "lattice.py")
     if not ok and not ck.violations:
         ck.fail("lean-build", "Lean obligations of C15 no longer check: %r" % (info["failed_modules"],),
                 {"kind": "proof-obligation", "theorem": info["failed_modules"], "errors": info["errors"]}, no_failing_input=True)
